@@ -18,7 +18,7 @@ MAXCP = 0x10FFFF
 class CP:
     """A symbolic code point: z3 Int term + small id (for atom caching)."""
 
-    __slots__ = ("z", "id", "base", "off", "leaf")
+    __slots__ = ("z", "id", "base", "off", "leaf", "hexsrc")
     _n = 0
 
     def __init__(self, z, base=None, off=0):
@@ -33,6 +33,7 @@ class CP:
         self.base = base
         self.off = off
         self.leaf = False  # set by new_str for declared input characters
+        self.hexsrc = None  # (token, index, width, upper) for digits produced by rt.hex_digits
 
 
 _ATOMS: dict = {}
@@ -137,6 +138,13 @@ def cp_in_ivs(c, ivs, tag=None):
     if c.base is not None:
         off = c.off
         return cp_in_ivs(c.base, tuple((lo - off, hi - off) for lo, hi in ivs), None if tag is None else (tag, off))
+    if c.hexsrc is not None:
+        # a digit of a formatted hexadecimal number: one of 0-9 and A-F (or a-f)
+        letters = (65, 70) if c.hexsrc[3] else (97, 102)
+        def covered(lo, hi):
+            return any(a <= lo and hi <= b for a, b in ivs)
+        if covered(48, 57) and covered(*letters):
+            return True
     k = (c.id, tag if tag is not None else ivs)
     r = _ATOMS.get(k)
     if r is None:
@@ -851,6 +859,11 @@ def _isascii(s):
     return _all_in(s, "ascii", empty=True)
 
 
+@method("isprintable")
+def _isprintable(s):
+    return _all_in(s, "printable", empty=True)
+
+
 @method("encode")
 def _encode(s, encoding="utf-8", errors="strict"):
     if isinstance(s, SBytes):
@@ -977,7 +990,7 @@ def _format(s, *a, **k):
     raise Unsupported("symbolic format string")
 
 
-@method("title", "capitalize", "casefold", "swapcase", "translate", "center", "ljust", "rjust", "isidentifier", "istitle", "isupper", "islower", "isnumeric", "isprintable")
+@method("title", "capitalize", "casefold", "swapcase", "translate", "center", "ljust", "rjust", "isidentifier", "istitle", "isupper", "islower", "isnumeric")
 def _unsupported(s, *a, **k):
     raise Unsupported("str method outside the model")
 
